@@ -1143,6 +1143,10 @@ static const uint8_t *unmarshal_one_fiber(
         janet_asserttype(funcv, JANET_FUNCTION, st);
         func = janet_unwrap_function(funcv);
         def = func->def;
+        if (NULL == def) {
+            /* A reference to a function that is still being read */
+            janet_panic("fiber stackframe refers to an unfinished function");
+        }
 
         /* Check env */
         if (frameflags & JANET_STACKFRAME_HASENV) {
